@@ -375,7 +375,7 @@ fn main() {
     }
 
     let thorough = ctx.tier == mcx::Tier::Thorough;
-    let space = if thorough { Space::new(6, true) } else { Space::new(5, false) };
+    let space = if thorough { Space::new(6, true) } else { Space::new(5, true) };
     let seed = ctx.seed;
     let keys = Keys::new(seed);
     let n = space.radix.size();
@@ -401,7 +401,7 @@ fn main() {
 
     let samples: Vec<Value> = sweep::sample_indexes(n).into_iter().map(|i| space.decode(i).to_json()).collect();
     let mut cov = st.coverage(
-        "items = (namespace state per peer in {absent, signed, unsigned} (+ corrupt sigrefs for local in thorough), current delegate set = non-empty subset of {local,d1,d2}, \
+        "items = (namespace state per peer in {absent, signed, unsigned} (+ corrupt sigrefs for local), current delegate set = non-empty subset of {local,d1,d2}, \
          delegate set given by the root document | added by a later identity revision, canonical refs/rad/id present | absent); an item is non-trivial when a non-protected \
          namespace exists; distinct = distinct configuration",
         samples,
